@@ -470,6 +470,9 @@ impl Gen {
         let (r, c) = (meta[a].r, meta[a].c);
         let dst = self.any_slot();
         let k = self.ru(0, 9);
+        if self.allow_iter && self.mode == Codec::Plain && self.p(0.08) {
+            return Some(oc(self.pick(&["serde_json", "serde_bincode"]), a, 0, dst, vec![]));
+        }
         Some(match k {
             0 | 1 | 2 => oc("transpose", a, 0, dst, vec![]),
             3 => oc("clone", a, 0, dst, vec![]),
@@ -624,7 +627,7 @@ impl Gen {
         let mut ops = vec![
             "shape", "get_row_as_vec", "get_col_as_vec", "copy_row_as_vec", "copy_col_as_vec", "sum", "min", "max", "norm1",
             "norm_inf", "norm_ninf", "norm2sq", "normp", "argmax", "unique", "max_diff", "max_diff", "min", "max", "argmax",
-            "norm_half",
+            "norm_half", "norm_neg", "norm_neg", "copy_row_into", "copy_col_into",
         ];
         if self.allow_iter {
             ops.extend_from_slice(&["iter", "iter_nth", "iter_skip", "iter_step", "iter_count", "iter_last", "iter_size_hint"]);
@@ -646,6 +649,35 @@ impl Gen {
             "normp" => 20.0,
             _ => ANY,
         };
+        if op == "norm_neg" {
+            // a fresh operand of at most four non-zero entries (|x| <= 20), often of equal magnitude
+            let n = self.ru(1, 4);
+            let c = self.ri(1, 20);
+            let equal = self.p(0.4);
+            let d: Vec<i64> = (0..n)
+                .map(|_| {
+                    let m = if equal { c } else { self.pick(&[1i64, 2, 4, 8, 16, 3, 5, 7, 10, 20]) };
+                    if self.p(0.5) { -m } else { m }
+                })
+                .collect();
+            let s = self.any_slot();
+            let p2 = self.pick(&[1i64, 2, 2, 4]);
+            self.pending.push_back(oc(op, s, 0, 0, vec![p2]));
+            let (r, cc) = if n == 4 && self.p(0.3) { (2, 2) } else if self.p(0.5) { (1, n) } else { (n, 1) };
+            return Some(OpCall::new("from_array", 0, 0, s, vec![r as i64, cc as i64], d, vec![]));
+        }
+        if op == "copy_row_into" || op == "copy_col_into" {
+            let a = self.pick_m(meta, ANY)?;
+            let (r, cc) = (meta[a].r, meta[a].c);
+            let (lim, len) = if op == "copy_row_into" { (r, cc) } else { (cc, r) };
+            let buf = match self.ru(0, 3) {
+                0 => len,
+                1 => len + 3,
+                2 => r.max(cc),
+                _ => len + 1,
+            };
+            return Some(oc(op, a, 0, 0, vec![self.ru(1, lim) as i64, buf as i64, -77]));
+        }
         if op == "norm_half" {
             // small operands only: (sum sqrt|x|)^2 must stay far below the fixed-point range
             let c: Vec<usize> = self.mats(meta, 20.0).into_iter().filter(|&i| meta[i].r * meta[i].c <= 16).collect();
@@ -1003,8 +1035,23 @@ impl Gen {
             14..=16 => {
                 let op = self.pick(&[
                     "v_len", "v_to_vec", "v_sum", "v_norm1", "v_norm_inf", "v_norm_ninf", "v_norm2sq", "v_normp", "v_unique", "v_mean",
-                    "v_var", "v_std", "v_clone", "v_norm_half",
+                    "v_var", "v_std", "v_clone", "v_norm_half", "v_norm_neg",
                 ]);
+                if op == "v_norm_neg" {
+                    let n = self.ru(1, 4);
+                    let c = self.ri(1, 20);
+                    let equal = self.p(0.4);
+                    let d: Vec<i64> = (0..n)
+                        .map(|_| {
+                            let m = if equal { c } else { self.pick(&[1i64, 2, 4, 8, 16, 3, 5, 7, 10, 20]) };
+                            if self.p(0.5) { -m } else { m }
+                        })
+                        .collect();
+                    let s = self.any_slot();
+                    let p2 = self.pick(&[1i64, 2, 2, 4]);
+                    self.pending.push_back(oc(op, s, 0, 0, vec![p2]));
+                    return Some(OpCall::new("v_from_array", 0, 0, s, vec![], d, vec![]));
+                }
                 let bound = match op {
                     "v_sum" | "v_norm1" | "v_mean" => MED,
                     "v_norm2sq" | "v_var" | "v_std" => SMALL,
